@@ -341,12 +341,14 @@ class Unit:
         text = self.clean(it.text)
         self.fn_idents[key] = first_occurrence_idents(text)
         self.fn_closures[key] = len(CLOSURE_HEAD.findall(text))
+        # renames of locals/parameters since the baseline, for rules whose ghost text names locals (see _inferred_renames)
+        self.current_renames = self._inferred_renames(key)
         for r in rules:
             text = r(self, key, text)
         c = self.contracts.get(key)
         if c is not None:
             c.used = True
-            ren = self._inferred_renames(key)
+            ren = self.current_renames
             if ren:
                 c = rename_contract(c, ren)
                 self.relaxed.append('%s: contract follows renamed locals/parameters: %s' % (key, ', '.join('%s -> %s' % kv for kv in sorted(ren.items()))))
